@@ -70,10 +70,12 @@ UNIT = dict(
             ("sub", "R3-call", r"execute_with_hedging\(inner, req, config\)\.await", "execute_with_hedging(inner, req, config, clk, Tracked(tr))", 1),
         ]),
         "Hedge::clone@Clone": dict(),
+        "HedgeDelay::get_delay": dict(file="config", rules=[("sub", "R10-fn-call", r"\bf\(attempt\)", "f.vx_call(attempt)", 1)]),
         "Hedge::poll_ready@Service": dict(rules=[("R10p", "HedgeError::Inner")]),
     },
     types=[
         ("enum", "HedgeError", "error"),
+        ("enum", "HedgeDelay", "config"),
         ("struct", "HedgeConfig", "config"),
         ("struct", "Hedge", "lib"),
     ],
